@@ -78,8 +78,16 @@ def gen_cargo(rng):
             t = "target.'cfg(unix)'." + rng.choice(["dependencies", "dev-dependencies"])
         s = cargo_spec(rng, u)
         decl = (name, s, None, s) if form in ("simple", "inline", "inline2", "dotted", "renamed", "subtable") else None
+        if rng.chance(1, 10) and form in ("simple", "inline", "dotted"):
+            # tables that merely END in a dependency-table name (tool metadata, features): their keys are not dependencies
+            t = rng.choice(NOT_DEP_TABLES)
+            decl = None
         deps.append((t, name, form, s, decl))
     return deps
+
+
+NOT_DEP_TABLES = ["package.metadata.bundle.dependencies", "workspace.metadata.tool.dev-dependencies", "package.metadata.deb.build-dependencies",
+                  "features", "package.metadata.docs.rs", "patch.crates-io", "x.dependencies", "dependencies-extra", "target.dependencies"]
 
 
 GOPATHS = ["golang.org/x/text", "github.com/a/b", "github.com/c/d/v2", "example.com/e", "gopkg.in/yaml.v3", "github.com/é/x"]
